@@ -504,6 +504,8 @@ def main():
     }
     os.makedirs(os.path.join(OUT, "evidence"), exist_ok=True)
     json.dump(ev, open(os.path.join(OUT, "evidence", prop + ".json"), "w"), indent=1, sort_keys=True)
+    if tier == "thorough":  # kept next to the quick-tier file, which the next quick run rewrites
+        json.dump(ev, open(os.path.join(OUT, "evidence", prop + ".thorough.json"), "w"), indent=1, sort_keys=True)
 
     # ---------------- verdict
     log("run_check: %d runs, %d steps, %d oracle evaluations for %s, %d states, %.1fs build + %.1fs explore" % (agg.runs, agg.steps, agg.orc.get(prop, 0), prop, len(agg.states), tbuild, trun))
